@@ -410,7 +410,8 @@ def parseRecv : String → Recv
   | "tref" => .typedRef | "tmut" => .typedMut | _ => .pinMut
 
 def parsePClass : String → PClass
-  | "own" => .owned | "ref" => .ref | "refref" => .refRef | "mut" => .mutRef | "imp" => .mutImpossible | "mutdyn" => .mutDyn | _ => .slice
+  | "own" => .owned | "ref" => .ref | "refref" => .refRef | "mut" => .mutRef | "imp" => .mutImpossible | "mutdyn" => .mutDyn | "gt" => .genT | "gu" => .genU
+  | c => if c.startsWith "impl" then .implInto ((c.drop 4).toString.toNat?.getD 0) else .slice
 
 def parseParams (s : String) : List Param :=
   ((s.splitOn ",").filter (· ≠ "")).map fun x =>
@@ -442,7 +443,8 @@ def runShape (line : String) : Array String := Id.run do
     { traitName := tr, name := name, recv := parseRecv ((kv t "recv").getD "ref"),
       params := parseParams ((kv t "params").getD ""), isAsync := kvNat t "async" == 1, rpit := kvNat t "rpit" == 1,
       hasDefault := kvNat t "default" == 1, unmock := parseUnmock ((kv t "unmock").getD "none"),
-      api := parseApi api name ((kv t "flat").getD name) }
+      api := parseApi api name ((kv t "flat").getD name),
+      traitGen := kvNat hd "tgen" == 1, methodGen := kvNat t "mgen" == 1 }
   let mut out : Array String := #[]
   for m in ms do
     for l in renderMockFn m do out := out.push l
